@@ -293,6 +293,12 @@ var bsPatterns = []interface{}{
 	map[string]interface{}{},
 	map[string]interface{}{"fresh": true},
 	map[string]interface{}{"note": "??maybe"},
+	// values produced by earlier actions, looked into (an integer inside an array is where an
+	// in-memory state and its JSON round trip could differ)
+	map[string]interface{}{"flag": []interface{}{1.0}},
+	map[string]interface{}{"t": []interface{}{1.0}},
+	map[string]interface{}{"note": []interface{}{1.0, "?other"}},
+	map[string]interface{}{"count": []interface{}{1.0}},
 }
 
 func (g *G) target() string {
